@@ -15,8 +15,11 @@ class Request:
         return self.op.name if self.pass_opname else None
 
     def describe(self):
-        return {"query": self.text, "operation_name": self.op_name, "variables": self.variables,
-                "world_seed": self.wseed, "initial_value": self.use_root}
+        d = {"query": self.text, "operation_name": self.op_name, "variables": self.variables,
+             "world_seed": self.wseed, "initial_value": self.use_root}
+        if getattr(self, "world_opts", None):
+            d["world_opts"] = self.world_opts
+        return d
 
 
 def gen_request(rng, s, dopts=None, doc=None):
@@ -32,8 +35,12 @@ def gen_request(rng, s, dopts=None, doc=None):
 
 
 def make_worlds(s, req, faults=None, sched=None, leafgen=None):
-    return (world_mod.World(s, req.wseed, faults, None, leafgen),
-            world_mod.World(s, req.wseed, faults, sched, leafgen))
+    ws = (world_mod.World(s, req.wseed, faults, None, leafgen),
+          world_mod.World(s, req.wseed, faults, sched, leafgen))
+    for w in ws:
+        for k, v in (getattr(req, "world_opts", None) or {}).items():
+            setattr(w, k, v)
+    return ws
 
 
 def run_reference(s, req, w_ref):
